@@ -405,6 +405,8 @@ class PteraTransformer(NodeTransformer):
         for ext in self.external:
             self.provenance[ext] = "external"
         self.annotated = {}
+        # The variables that are targets of a for loop (#loop_x, #endloop_x)
+        self.loopvars = set()
         self.evalcache = {None: ABSENT}
         self.linenos = {}
         self.defaults = {}
@@ -891,6 +893,7 @@ class PteraTransformer(NodeTransformer):
         new_body.extend(self.visit_body(node.body))
 
         svc = SimpleVariableCollector(node.target)
+        self.loopvars.update(svc.vars)
 
         new_body = self.delimit(
             new_body,
@@ -1435,6 +1438,17 @@ def _compile(filename, tree, freevars):
     return compile(ast.Module(body=[tree], type_ignores=[]), filename, "exec")
 
 
+class _InfoTable(dict):
+    """The information about the variables of a function.
+
+    Attributes:
+        loopvars: The variables that are the target of a for loop, i.e. those
+            for which there are #loop_x and #endloop_x events.
+    """
+
+    loopvars = frozenset()
+
+
 def _standard_info():
     return {
         "#enter": {
@@ -1690,6 +1704,8 @@ def transform(fn, proceed, to_instrument=True, set_conformer=True):
         }
         for k in all_vars
     }
+    info = _InfoTable(info)
+    info.loopvars = frozenset(transformer.loopvars)
     info.update(_standard_info())
 
     if set_conformer:
